@@ -7,6 +7,7 @@ mod refgens;
 mod threads;
 mod trace;
 mod util;
+mod vectors;
 
 use std::io::{BufRead, Write};
 
@@ -245,6 +246,36 @@ fn main() {
                 writeln!(w, "{}", e).unwrap();
             }
             println!("{}", json!({"events": evs.len()}));
+        },
+        "noncekeys" => {
+            // the harness's reference derivation must build exactly the keys the specification prints (MC_Nonce)
+            let script: Value = serde_json::from_str(&std::fs::read_to_string(arg(&args, "--script").expect("--script")).unwrap()).unwrap();
+            let mut bad: Vec<String> = vec![];
+            let mut n = 0;
+            for e in script["table"].as_array().unwrap() {
+                let j = e["j"].as_i64().unwrap();
+                let k = e["k"].as_i64().unwrap();
+                let want: Vec<u8> = e["suffix"].as_array().unwrap().iter().map(|x| x.as_u64().unwrap() as u8).collect();
+                let got = trace::nonce_key_suffix(if j < 0 { None } else { Some(j as u32) }, if k < 0 { None } else { Some(k as u32) });
+                if got != want {
+                    bad.push(format!("key suffix for ({}, {}, {}) differs from the specification", e["label"], j, k));
+                }
+                n += 1;
+            }
+            println!("{}", json!({"checked": n, "mismatches": bad}));
+        },
+        "vectors" => {
+            let path = arg(&args, "--file").expect("--file");
+            if args.iter().any(|a| a == "--gen") {
+                let v = vectors::gen();
+                std::fs::write(path, serde_json::to_string_pretty(&v).unwrap()).unwrap();
+                println!("{}", json!({"generated": v.len()}));
+            } else {
+                let v: Vec<Value> = serde_json::from_str(&std::fs::read_to_string(path).unwrap()).unwrap();
+                let mut bad = vectors::check(&v, 0);
+                bad.extend(vectors::check(&v, 1).into_iter().map(|b| format!("{} [verifier capacity doubled]", b)));
+                println!("{}", json!({"checked": 2 * v.len(), "mismatches": bad}));
+            }
         },
         "mem" => {
             let outp = arg(&args, "--out").expect("--out");
